@@ -1,4 +1,3 @@
 package main
 
-func c15Conv(c *Ctx) {}
 func c16Conv(c *Ctx) {}
